@@ -10,7 +10,7 @@ Definition node_write (c : rcfg) (n : node) : option rwrite :=
   else Some {| rw_db := if r_tdb c =? -1 then n_db n else r_tdb c; rw_key := n_key n; rw_payload := n_value n;
                rw_ttl := if n_pttl n =? -1 then 0 else n_pttl n;
                rw_big := r_threshold c <=? lenZ (n_value n);
-               rw_replace := if r_threshold c <=? lenZ (n_value n) then false else r_rewrite c |}.
+               rw_replace := r_rewrite c |}.
 
 Lemma texec_app cur curbig a b :
   texec cur curbig (a ++ b) =
@@ -18,7 +18,7 @@ Lemma texec_app cur curbig a b :
                               (fold_left (fun d x => match x with RSelect true d' => d' | _ => d end) a curbig) b.
 Proof.
   revert cur curbig. induction a as [|x a IH]; intros cur curbig; [reflexivity|].
-  destruct x as [[|] d|k p t rep|k p t]; cbn [app texec fold_left]; rewrite IH; reflexivity.
+  destruct x as [[|] d|k p t rep|k p t del]; cbn [app texec fold_left]; rewrite IH; reflexivity.
 Qed.
 
 (* the SELECT bookkeeping: preDb / preBigKeyDb are the selected databases *)
@@ -89,8 +89,8 @@ Open Scope N_scope.
 
 Definition big_entry (key payload : bytes) : entry :=
   {| e_db := 0; e_key := key; e_type := 0; e_value := payload; e_expire := 0; e_real_count := 0; e_need_len := 1; e_idle := 0; e_freq := 0 |}.
-Definition big_apply (pf : bytes -> option N) (key payload : bytes) (ttl : N) (s : slot) : slot * routcome :=
-  match elements pf (big_entry key payload) 0 s with
+Definition big_apply (pf : bytes -> option N) (key payload : bytes) (ttl : N) (del : bool) (s : slot) : slot * routcome :=
+  match elements pf (big_entry key payload) 0 (if del then None else s) with
   | (s', Done) => ((if 0 <? ttl then set_ttl s' ttl else s'), Done)
   | x => x
   end.
@@ -103,17 +103,22 @@ Proof.
 Qed.
 
 (* on a free target key the element-by-element expansion leaves the source value and ttl *)
-Theorem big_key_faithful pf key e v ttl : whole pf e v ->
-  big_apply pf key (e_value e) ttl None = (Some {| k_val := TLog (norm v); k_ttl := ttl |}, Done).
+Theorem big_key_faithful pf key e v ttl del s : whole pf e v -> (s = None \/ del = true) ->
+  big_apply pf key (e_value e) ttl del s = (Some {| k_val := TLog (norm v); k_ttl := ttl |}, Done).
 Proof.
-  intros Hw. unfold big_apply, elements. rewrite (elems_of_big pf key (e_value e) e v Hw eq_refl).
+  intros Hw Hs. unfold big_apply.
+  assert (Hn : forall A (f : slot -> A), f (if del then None else s) = f None)
+    by (intros A f; destruct Hs as [-> | ->]; [destruct del|]; reflexivity).
+  rewrite (Hn _ (fun x => match elements pf (big_entry key (e_value e)) 0 x with (s', Done) => ((if 0 <? ttl then set_ttl s' ttl else s'), Done) | y => y end)).
+  unfold elements. rewrite (elems_of_big pf key (e_value e) e v Hw eq_refl). cbv beta iota.
   rewrite (push_norm v (w_ne _ _ _ Hw)). cbn [with_val big_entry e_expire]. change (0 =? 0) with true. cbv iota.
   destruct (0 <? ttl) eqn:E; cbn [set_ttl k_val]; [reflexivity|].
   apply N.ltb_ge in E. assert (ttl = 0) by lia. subst. reflexivity.
 Qed.
 
-(* F18 (finding): with a busy target key the big-key expansion merges, even under rewrite *)
+(* F18: with a busy target key and key_exists = none the big-key expansion merges (the pinned
+   code merged under rewrite too: repaired) *)
 Theorem big_key_merge_refuted :
-  fst (big_apply nofloat [x6b] (create_value_dump x01 [x01; x01; x61]) 0 (Some {| k_val := TLog (LList [[x6f]]); k_ttl := 0 |}))
+  fst (big_apply nofloat [x6b] (create_value_dump x01 [x01; x01; x61]) 0 false (Some {| k_val := TLog (LList [[x6f]]); k_ttl := 0 |}))
     = Some {| k_val := TLog (LList [[x6f]; [x61]]); k_ttl := 0 |}.
 Proof. vm_compute. reflexivity. Qed.
